@@ -595,7 +595,9 @@ func (s *Session) start() error {
 
 		return true
 	})
-	s.Router.HandleOutgoing(simplefixgo.AllMsgTypes, func(msg simplefixgo.SendingMessage) bool {
+	// Only a message that every outgoing handler has accepted is going to be transmitted:
+	// a refused send attempt must not postpone the next Heartbeat.
+	s.Router.HandleOutgoing(simplefixgo.AcceptedMsgTypes, func(msg simplefixgo.SendingMessage) bool {
 		outgoingMsgTimer.Refresh()
 
 		return true
